@@ -27,7 +27,8 @@ with ThreadPoolExecutor(14) as p:
         fails = [o for o in ob if o['status'] != 'SUCCESS']
         print('== %s: %s n=%d fail=%d cbmc=%ss gi=%ss cached=%s' % (res['run'], res['status'], len(ob), len(fails), res.get('time_cbmc_s'), res.get('time_instrument_s'), res.get('cached')))
         if res['status'] != 'ok': print('   ', res.get('reason'))
-        for o in fails:
+        fails = [o for o in fails if not (o['desc'] or '').startswith('[CANARY]')]
+        for o in fails[:int(os.environ.get('NF','14'))]:
             print('   FAIL %s | %s | %s:%s %s' % (o['id'], o['desc'], os.path.basename(o['file'] or ''), o['line'], o['kind']))
             if trace and 'trace' in o:
                 for st in o['trace'][-60:]:
